@@ -5,6 +5,9 @@ CONSTANTS
   FrontEnds = {"http", "direct"}
   Containment = "parent"
   TargetParse = "urlsplit"
+  Probe = "stat"
+  Exotic = {"n0", "fn", "nf", "dn", "xff", "long"}
+  ExoticMaxLen = 3
 INVARIANT TypeOK
 
 CHECK_DEADLOCK FALSE
